@@ -96,6 +96,7 @@ def _mk_explore(pid, seed, tier):
             "nontrivial": mod.nontrivial_key(case, res),
             "stats": mod.stats(case, res) if hasattr(mod, "stats") else {},
             "digest": res.get("digest"),
+            "bdigest": res.get("bdigest", res.get("digest")),
             "work": res.get("work", 0),
             "sim_s": res.get("elapsed", 0.0),
         }
@@ -363,10 +364,14 @@ def cmd_check(pid, tier, n_override=None, nproc=None, budget_s=None):
                                   ",".join(map(str, sample))],
                                  env=dict(os.environ, PYTHONHASHSEED="1"), capture_output=True, text=True, timeout=600)
             again = json.loads(out.stdout.strip().splitlines()[-1])
-            first = {r["i"]: r["digest"] for r in ok}
-            diff = [i for i in sample if first.get(i) != again.get(str(i))]
+            first = {r["i"]: (r["digest"], r.get("bdigest")) for r in ok}
+            diff = [i for i in sample if first.get(i, (None, None))[1] != again.get(str(i), [None, None])[1]]
+            wdiff = [i for i in sample if first.get(i, (None, None))[0] != again.get(str(i), [None, None])[0]]
             if diff and not any(m.get("history") for _, m in new_violations.values()):
-                harness_errors.append("nondeterministic digests for cases %s" % diff[:10])
+                harness_errors.append("nondeterministic behaviour (event logs differ between processes) for cases %s" % diff[:10])
+            elif wdiff:
+                print("note: work counts of %d sampled cases differ between a pool worker and a fresh interpreter "
+                      "(same events, different cost: the engine keeps process-level state such as a cache)" % len(wdiff))
         except Exception as e:  # noqa
             harness_errors.append("determinism spot check failed to run: %r" % (e,))
 
@@ -454,7 +459,7 @@ def cmd_digests(pid, seed, tier, idxs):
     out = {}
     for i in idxs:
         res = mod.execute(mod.gen_case(seed, i, tier))
-        out[str(i)] = res.get("digest")
+        out[str(i)] = [res.get("digest"), res.get("bdigest", res.get("digest"))]
     print(json.dumps(out))
     return 0
 
@@ -476,7 +481,7 @@ def cmd_selftest_determinism(n, pids):
                 print(out.stderr[-2000:])
                 return 2
             runs.append(json.loads(out.stdout.strip().splitlines()[-1]))
-        diff = [i for i in runs[0] if not (runs[0][i] == runs[1][i] == runs[2][i])]
+        diff = [i for i in runs[0] if not (runs[0][i] == runs[1][i] == runs[2][i])]   # full digests, work stamps included
         print("%s: %d cases x 3 fresh interpreters (hash seeds 0,1,77): %d differing" % (pid, n, len(diff)))
         if diff:
             print("  differing cases:", diff[:20])
